@@ -4,7 +4,7 @@
    Run with the output directory as cwd (Coq 8.16 has no output-dir option). *)
 From Coq Require Import Extraction ExtrOcamlBasic.
 From LF Require Import Base.Opcode Base.Num Base.Arena Tree.Build Tree.Flatten
-  Tree.Optimize Eval.Deck Eval.Push Serial.Codec Conc.Refcount Eval.Deriv Eval.DerivEval Stdlib.SExpr Gen.Stdlib_gen Eval.OracleEval.
+  Tree.Optimize Eval.Deck Eval.Push Serial.Codec Conc.Refcount Eval.Deriv Eval.DerivEval Stdlib.SExpr Gen.Stdlib_gen Eval.OracleEval Eval.GetBase.
 
 Extraction Language OCaml.
 Extraction "model.ml"
@@ -17,4 +17,5 @@ Extraction "model.ml"
   rc_spec live_count rstep drop alloc
   deriv_at var_partial
   build std_dispatch
-  evaluator oracle_obj jac_mul.
+  evaluator oracle_obj jac_mul
+  get_base_idx in_level box_in_level.
